@@ -447,6 +447,8 @@ fn decode(gen: Gen, buf: &[u8]) -> Result<RunResult, String> {
         disk_after: disk,
         intruder: None,
         company_ambiguous: false,
+        inodes_after: None,
+        orphans_after: Default::default(),
     })
 }
 
